@@ -236,6 +236,151 @@ def run_labels(ck):
     ck.add_samples([show_labels(c) for c in cases if len(c["raw"]) >= 2][:2])
 
 
+# ------------------------------------------------------------------------------------------ protocols
+P_LISTS = ["M_pfp", "M_pdjb", "M_pdoc", "V_pperm", "V_pdoc", "K_unsan"]
+
+
+def coq_hexpairs(pairs):
+    return coq_list(["(%s, %s)" % (coq_bytes(unhex(a)), coq_bytes(unhex(b))) for a, b in pairs or []])
+
+
+def wire_to_coq(w):
+    k = w["kind"]
+    hb = lambda h: coq_bytes(unhex(h))
+    f = w.get("fields") or []
+    if k == "dd_logs":
+        return "WDatadogLogs %s %s %s %s %s" % (coq_hexpairs(w.get("tags")), hb(f[0]), hb(f[1]), hb(f[2]), hb(f[3]))
+    if k == "dd_cf":
+        names = ["cf_ddsource", "cf_script", "cf_outcome", "cf_event", "cf_action_result", "cf_action_type", "cf_actor_type", "cf_resource_type"]
+        return "WDatadogCF {| %s |}" % "; ".join("%s := %s" % (n, hb(v)) for n, v in zip(names, f))
+    if k == "dd_metrics":
+        items = []
+        for it in w.get("items") or []:
+            if it.get("is_res"):
+                items.append("DResources %s" % coq_list([coq_hexpairs(o) for o in it.get("objs") or []]))
+            else:
+                items.append("DMetric %s" % hb(it.get("metric", "")))
+        return "WDatadogMetrics %s" % coq_list(items)
+    if k == "es_doc":
+        return "WElasticDoc %s %s" % (hb(f[0]), ("(Some %s)" % hb(f[1])) if w.get("has_id") else "None")
+    if k == "es_bulk":
+        return "WElasticBulk %s %s" % (hb(f[0]), coq_hexpairs(w.get("tags")))
+    if k == "otlp":
+        return "WOtlpLogs (otlp_map %s %s %s %s)" % (coq_hexpairs(w.get("res")), coq_hexpairs(w.get("scope")), coq_hexpairs(w.get("rec")), hb(w.get("sev", "")))
+    if k == "influx_metric":
+        return "WInfluxMetric %s %s %s" % (hb(f[0]), coq_hexpairs(w.get("tags")), hb(f[1]))
+    raise ValueError("unknown wire kind %r" % k)
+
+
+def pcase_to_coq(c):
+    return ("{| pc_id := %d; pc_wire := %s; pc_ch := %s; pc_print := %s; pc_fp := %s; pc_fps := %s; pc_fp_djb := %s; pc_doc := %s |}" % (
+        c["id"], wire_to_coq(c["wire"]),
+        coq_list(["(%s, %s)" % (coq_bytes(unhex(h)), coq_u64(v)) for h, v in c.get("ch") or []]),
+        coq_list(["(%d, %s)" % (r, "true" if p else "false") for r, p in (c.get("print") or [])]),
+        coq_u64(c["fp"]), coq_list([coq_u64(x) for x in c.get("fps") or []]), coq_u64(c["fp_djb"]), coq_bytes(unhex(c["doc"]))))
+
+
+def show_proto(c):
+    dh = lambda h: unhex(h).decode("latin1")
+    w = dict(c["wire"])
+    for key in ("tags", "res", "scope", "rec"):
+        if w.get(key):
+            w[key] = [[dh(a), dh(b)] for a, b in w[key]]
+    if w.get("fields"):
+        w["fields"] = [dh(x) for x in w["fields"]]
+    if w.get("sev"):
+        w["sev"] = dh(w["sev"])
+    for it in w.get("items") or []:
+        if it.get("metric"):
+            it["metric"] = dh(it["metric"])
+        if it.get("objs"):
+            it["objs"] = [[[dh(a), dh(b)] for a, b in o] for o in it["objs"]]
+    return {"protocol": c["class"], "sent": w, "fingerprint": c["fp"], "fingerprints in other wire orders": c.get("fps"),
+            "fingerprint (Bernstein)": c["fp_djb"], "document": unhex(c["doc"]).decode("latin1")}
+
+
+def run_protos(ck):
+    n = ck.n(350, 7000)
+    outp = os.path.join(ck.work, "protos.jsonl")
+    rc, out = ck.go_run("seriesid", ["--mode", "protos", "--seed", ck.seed, "--n", n, "--out", outp])
+    if rc != 0:
+        ck.obligation("harness seriesid --mode protos ran", False, out[-1500:])
+        return
+    cases = [json.loads(l) for l in open(outp)]
+    bad = [c for c in cases if c.get("panic") or c.get("err")]
+    ck.obligation("every Datadog / Elasticsearch / OTLP / Influx-metric request was parsed into a series row (in every wire order and under both fingerprint types)",
+                  not bad, json.dumps(bad[:1])[:800])
+    for c in bad[:1]:
+        ck.violation({"property": "C04", "part": "protos", "kind": "parser error or panic on a generated request", "case": c,
+                      "replay": "seriesid --mode protos --seed %s --n %d (case id %d)" % (ck.seed, n, c["id"])})
+    ok = [c for c in cases if c not in bad]
+    byid = {c["id"]: c for c in ok}
+    res = {k: [] for k in P_LISTS}
+    shard = 400
+    for k in range(0, len(ok), shard):
+        txt = ("From Coq Require Import List ZArith Bool String Ascii Uint63.\n"
+               "From Qryn Require Import model.GoQuote model.LabelJson model.Fingerprint model.Labels model.ProtoLabels.\n"
+               "Import ListNotations.\nOpen Scope Z_scope.\n"
+               "Definition cases : list pcase := [\n  " + ";\n  ".join(pcase_to_coq(c) for c in ok[k:k + shard]) + "].\n"
+               "Definition R := Eval vm_compute in preport cases.\nPrint R.\n")
+        rc, out = ck.coq_eval("C04_protos_%d" % (k // shard), txt)
+        r = parse_report(out, P_LISTS) if rc == 0 else None
+        if r is None:
+            ck.obligation("protocol cases evaluated inside Coq", False, out[-1500:])
+            return
+        for key in P_LISTS:
+            res[key] += r[key]
+    size = lambda c: len(json.dumps(c["wire"]))
+    ck.obligation("correspondence: model ProtoLabels.wire_labels + fingerprint (CityHash) = fingerprint stored by the decoder on %d requests" % len(ok),
+                  not res["M_pfp"], "case ids: %s" % res["M_pfp"][:10])
+    ck.obligation("correspondence: model fin_djb (FingerPrintType = Bernstein) = fingerprint stored by the decoder on %d requests" % len(ok),
+                  not res["M_pdjb"], "case ids: %s" % res["M_pdjb"][:10])
+    ck.obligation("correspondence: encode_labels (wire_labels request) = labels text stored by the decoder (up to the order of a Go map for OTLP / Influx tags)",
+                  not res["M_pdoc"], "case ids: %s" % res["M_pdoc"][:10])
+    ck.obligation("spec: the same request in other wire orders (members, tags, Go map iteration) gets the same fingerprint", not res["V_pperm"],
+                  "case ids: %s" % res["V_pperm"][:10])
+    ck.obligation("spec: the labels text stored by these decoders is JSON and decodes to the label list they built", not res["V_pdoc"],
+                  "case ids: %s" % res["V_pdoc"][:10])
+    if res["V_pperm"]:
+        c = min((byid[i] for i in res["V_pperm"]), key=size)
+        ck.violation({"property": "C04", "part": "protos", "kind": "fingerprint depends on the order the request presents its labels in",
+                      "case": c, "readable": show_proto(c), "explanation": "pv_perm (model/ProtoLabels.v)",
+                      "replay": "seriesid --mode protos --seed %s --n %d (case id %d)" % (ck.seed, n, c["id"])})
+    if res["V_pdoc"] and not ck.violations:
+        c = min((byid[i] for i in res["V_pdoc"]), key=size)
+        ck.violation({"property": "C04", "part": "protos", "kind": "stored labels text is not JSON for the label list the decoder built",
+                      "case": c, "readable": show_proto(c), "explanation": "pv_doc (model/ProtoLabels.v)",
+                      "replay": "seriesid --mode protos --seed %s --n %d (case id %d)" % (ck.seed, n, c["id"])})
+    mm = res["M_pfp"] + res["M_pdjb"] + res["M_pdoc"]
+    if mm and not ck.violations:
+        c = min((byid[i] for i in mm), key=size)
+        ck.violation({"property": "C04", "part": "protos", "kind": "model/implementation disagree on the label list or fingerprint of a protocol; spec oracles still accept",
+                      "case": c, "readable": show_proto(c), "broken": [k for k in ("M_pfp", "M_pdjb", "M_pdoc") if c["id"] in res[k]]}, no_input=True)
+    if res["K_unsan"]:
+        c = min((byid[i] for i in res["K_unsan"]), key=size)
+        if "labels-unsanitized-by-protocol" in ck.known_findings():
+            bycls = {}
+            for i in res["K_unsan"]:
+                bycls[byid[i]["class"]] = bycls.get(byid[i]["class"], 0) + 1
+            ck.report_known("labels-unsanitized-by-protocol", "%d of %d generated requests %s store labels sanitizeLabels would have changed, e.g. %s" % (
+                len(res["K_unsan"]), len(ok), json.dumps(bycls), json.dumps(show_proto(c))[:500]))
+        else:
+            ck.violation({"property": "C04", "part": "protos", "kind": "a decoder stores labels that are not sanitized (the same label set through Loki gets another fingerprint)",
+                          "case": c, "readable": show_proto(c), "explanation": "pv_unsanitized (model/ProtoLabels.v)",
+                          "replay": "seriesid --mode protos --seed %s --n %d (case id %d)" % (ck.seed, n, c["id"])})
+    hist = {}
+    for c in cases:
+        hist[c["class"]] = hist.get(c["class"], 0) + 1
+    ck.coverage["evaluations"] += len(cases)
+    ck.coverage["distinct_nontrivial"] += len(set(json.dumps(c["wire"]) for c in cases if len(c.get("ch") or []) >= 3))
+    ck.coverage["rule"] += ("protos: requests of the seven decoders that build their own label list (Datadog logs with 0..3 ddtags and four optional fields, Datadog Cloudflare lines, Datadog metrics with resources, "
+                            "Elasticsearch document and bulk create objects, OTLP logs with resource/scope/record attributes overriding each other and a severity, InfluxDB metric lines), values incl. quotes, control bytes, "
+                            "non-ASCII, astral non-printables and > 100 bytes, each sent in 3 wire orders (OTLP: 4 map iterations) and once under FingerPrintType = Bernstein; non-trivial = at least 3 distinct strings in the label list, distinct by content. ")
+    ck.extra["protos_input_classes"] = hist
+    ck.extra["protos_unsanitized"] = len(res["K_unsan"])
+    ck.add_samples([show_proto(c) for c in ok if c["class"] == "otlp_logs"][:1])
+
+
 # ------------------------------------------------------------------------------------------ histories
 H_LISTS = ["M_hist", "V_hist"]
 TNAME = {0: "TBoth", 1: "TLog", 2: "TMetric"}
@@ -532,6 +677,7 @@ def run(ck):
         ck.obligation("harness seriesid builds against the repo (hook zz_verif_export_c04.go present)", False, ck.build_out[-1500:])
         return
     run_labels(ck)
+    run_protos(ck)
     run_hist(ck)
     run_keys(ck)
     run_dates(ck)
